@@ -246,8 +246,6 @@ func (h *c21LiveHarness) writeFiles(main, rules bool) error {
 }
 
 func (h *c21LiveHarness) Reset(init map[string]any) error {
-	t0 := time.Now()
-	defer func() { c21LiveTiming["Reset"] += time.Since(t0); c21LiveCount["Reset"]++ }()
 	if h.stop != nil {
 		h.stop()
 		h.stop = nil
@@ -342,7 +340,10 @@ func (h *c21LiveHarness) reload(a map[string]any) error {
 		return err
 	}
 	if err := h.cfg.Reload(); err != nil {
-		return fmt.Errorf("c21live: Reload refused the generated files: %v", err)
+		// warnings only: the configuration has been applied all the same
+		if w, ok := err.(interface{ HasErrors() bool }); !ok || w.HasErrors() {
+			return fmt.Errorf("c21live: Reload refused the generated files: %v", err)
+		}
 	}
 	return nil
 }
@@ -574,16 +575,7 @@ func (h *c21LiveHarness) send(a map[string]any) error {
 	return nil
 }
 
-var c21LiveTiming = map[string]time.Duration{}
-var c21LiveCount = map[string]int{}
-
 func (h *c21LiveHarness) Apply(a map[string]any) (err error) {
-	t0 := time.Now()
-	defer func() {
-		k := verifkit.Str(a, "name") + " " + verifkit.Str(a, "path")
-		c21LiveTiming[k] += time.Since(t0)
-		c21LiveCount[k]++
-	}()
 	defer func() {
 		if r := recover(); r != nil {
 			h.out = map[string]any{"tid": "-", "root": "-", "panic": fmt.Sprint(r)}
@@ -627,9 +619,6 @@ func TestVerifC21Live(t *testing.T) {
 	err := verifkit.Main(h)
 	if h.stop != nil {
 		h.stop()
-	}
-	for k, d := range c21LiveTiming {
-		t.Logf("TIMING %s: %d calls, %v each", k, c21LiveCount[k], d/time.Duration(c21LiveCount[k]))
 	}
 	if err != nil {
 		t.Fatal(err)
